@@ -7,7 +7,7 @@ PROPS = {
     "C08": ["c08_guards", "c06_bracketing", "c04_runner"],
     "C09": ["c09_auxes", "c11_clocks"],
     "C11": ["c11_clocks", "c06_bracketing", "c11_build"],
-    "C21": ["c21_needs"],
+    "C21": ["c21_needs", "c11_build"],
     "C24": ["c24_streams", "c24_serial"],
     "C25": ["c24_streams", "c24_serial", "c35_gramstack", "c25_udp"],
     "C26": ["c26_server"],
